@@ -411,8 +411,13 @@ pub fn compare_reports(pred: &Pred, run: &Run) -> Option<Diff> {
             });
         }
     }
-    // facts the Unexpected messages have to contain: there must be a one-to-one assignment of the
-    // predicted Unexpected reports to observed ones at the same location whose message states the facts
+    unexpected_facts(pred, &held)
+}
+
+/// The facts an `Unexpected` report has to state about the payload (the number and the violated bound, the
+/// string and its number of characters, the unparsable key ...): a one-to-one assignment of the predicted
+/// Unexpected reports to observed ones at the same location whose message contains the facts.
+pub fn unexpected_facts(pred: &Pred, held: &[&Report]) -> Option<Diff> {
     let pool: Vec<&Report> = held.iter().copied().filter(|r| matches!(r.kind, RKind::Unexpected { .. })).collect();
     let preds: Vec<(&Path, &Vec<String>, &'static str)> = pred
         .reports
